@@ -432,12 +432,14 @@ Section Stmts.
              [Lambda [] [var] None [] [] None [] test; call (Attribute (Name "__ol_itertools") "count") []],
         [], false)].
 
-  Definition if_result (test : expr) (body orelse : list expr) : expr :=
+  (* [isb]: the source condition is an and/or expression *)
+  Definition if_result (isb : bool) (test : expr) (body orelse : list expr) : expr :=
     if cfg_short cfg then
       match orelse with
-      | [] => BoolOp And [test; wrap cfg body]
+      | [] => BoolOp And [(if isb then IfExp test ctrue cfalse else test); wrap cfg body]
       | _ =>
-          let semi := BoolOp And [UnaryOp Not (UnaryOp Not test); EList [wrap cfg body]] in
+          let once := if isb then IfExp test ctrue cfalse else UnaryOp Not (UnaryOp Not test) in
+          let semi := BoolOp And [once; EList [wrap cfg body]] in
           match wrap cfg orelse with
           | BoolOp Or vs => BoolOp Or (semi :: vs)           (* a long elif chain stays flat *)
           | oe => BoolOp Or [semi; oe]
@@ -479,7 +481,7 @@ Section Stmts.
         let! b' := block c p 0 0 b in
         let! o' := block c p 1 0 o in
         let! t := tr n test in
-        ret [if_result t b' o']
+        ret [if_result (match test with BoolOp _ _ => true | _ => false end) t b' o']
     | SWhile test b o =>
         let has_break := brk_block b in
         let me := mkLoop LWhile p (uses_flag mi_loop b) has_break in
